@@ -9,7 +9,7 @@ use std::hash::{Hash, Hasher};
 
 const ITER_OPS: &[&str] = &[
   "drop", "forget", "drain", "splice", "drain_filter", "into_iter", "next", "next_back", "size_hint",
-  "len", "as_slice", "clone_iter", "nth", "nth_back", "count", "iter_views", "clone_from_iter",
+  "len", "as_slice", "clone_iter", "nth", "nth_back", "count", "last", "iter_views", "clone_from_iter",
 ];
 
 /// outer None: not handled here
@@ -121,6 +121,14 @@ fn iter_op(c: &mut Ctx, t: &[&str]) -> Option<Out> {
       }
       iter_op(c, &["drop", t[1]])?;
       Out::Nums(vec![n])
+    }
+    "last" => {
+      let mut last = None;
+      while let Out::Opt(Some(x)) = iter_op(c, &["next", t[1]])? {
+        last = Some(x);
+      }
+      iter_op(c, &["drop", t[1]])?;
+      Out::Opt(last)
     }
     "size_hint" | "len" => match &c.sh[i] {
       Sh::Drain { mid, .. } | Sh::Splice { mid, .. } | Sh::Into(mid) => {
